@@ -27,6 +27,7 @@ def main (args : List String) : IO UInt32 := do
   | "table" :: r => Drv.Table.run r; pure 0
   | "dest" :: r => Drv.Conn.run r; pure 0
   | ["fmt"] => Drv.Misc.lines h Drv.Misc.fmt; pure 0
+  | ["fnv"] => Drv.Misc.lines h Drv.Misc.fnv; pure 0
   | ["md5"] => Drv.Misc.lines h Drv.Misc.md5; pure 0
   | ["pk"] => Drv.Misc.lines h Drv.Misc.pk; pure 0
   | ["rw"] => Drv.Misc.lines h Drv.Misc.rw; pure 0
